@@ -485,7 +485,9 @@ fn tounicode_cmap(base: u32, n: u32, extras: &[(u16, Vec<u16>)]) -> Vec<u8> {
 fn stream_obj(dict_extra: &str, data: &[u8], compress: bool) -> Vec<u8> {
     let mut o: Vec<u8> = Vec::new();
     if compress {
-        let mut e = flate2::write::ZlibEncoder::new(Vec::new(), flate2::Compression::default());
+        // stored blocks for long data: the deflate encoder is very slow in the unoptimised profile
+        let level = if data.len() <= 200 { flate2::Compression::fast() } else { flate2::Compression::none() };
+        let mut e = flate2::write::ZlibEncoder::new(Vec::new(), level);
         e.write_all(data).unwrap();
         let z = e.finish().unwrap();
         o.extend_from_slice(format!("<< {} /Filter /FlateDecode /Length {} >>\nstream\n", dict_extra, z.len()).as_bytes());
